@@ -666,7 +666,25 @@ func (propC15) Judge(sc *Scenario) *Verdict {
 					o2.Ops = append(o2.Ops, r)
 				}
 			}
-			if field, cls, a, b, differs := diff(c15Observable(&o2)); differs {
+			// (what an IniParser remembers about the files it read - key spellings, quoting
+			// style - may legitimately show in what it writes later: only what the reads
+			// and the command lines mean is compared)
+			keep := func(obs []string) []string {
+				var out []string
+				for _, s := range obs {
+					f := strings.SplitN(s, "=", 2)[0]
+					if strings.HasPrefix(f, "file:") || strings.Contains(f, ":iniwrite:") || strings.Contains(f, ":help:") || strings.Contains(f, ":man:") {
+						s = f + "=(not compared)"
+					}
+					out = append(out, s)
+				}
+				return out
+			}
+			saved := base
+			base = keep(base)
+			field, cls, a, b, differs := diff(keep(c15Observable(&o2)))
+			base = saved
+			if differs {
 				v.OK = false
 				v.Class = "c15:file-reread-depends-on-earlier-read:" + cls
 				v.Msg = fmt.Sprintf("a file was read, rewritten (same length, same time stamp) and read again through the same IniParser; with a new IniParser for the second read the history gives a different %s:\n  kept IniParser: %s\n  new IniParser:  %s", field, a, b)
